@@ -41,4 +41,4 @@ Definition expected_defaults : list (meth * list ex) :=
    (MIterItems, [EFalse]); (MIterKeys, [EFalse]); (MIterValues, [EFalse]); (MReversed, []);
    (MKeys, [EFalse]); (MValues, [EFalse]); (MItems, [EFalse]); (MIter, []); (MGetState, []); (MSetState, []);
    (MCopy, []); (MInverted, []); (MCounts, []); (MSorted, [ENone; EFalse]); (MToDict, [EFalse]);
-   (MEq, []); (MNe, []); (MSortedValues, [ENone; EFalse])].
+   (MEq, []); (MNe, []); (MSortedValues, [ENone; EFalse]); (MInit, []); (MFromKeys, [ENone]); (MReduceEx, [])].
